@@ -68,8 +68,8 @@ def thr_choice(rng):
 
 
 def t_term(spec, tr, thrq):
-    return (f"({coq_Q(Fr(spec['prior']))}, {G.cmps_term(spec)}, {coq_opt(thrq, coq_Q)}, {coq_list(tr['gammas'], 'nx')}, "
-            f"{coq_list(tr['bfs'], 'nx')}, {coq_list([coq_opt(t, lambda s: s) for t in tr['tfs']], '(option nx)')}, {tr['final']})")
+    return (f"({coq_Q(Fr(spec['prior']))}, {G.cmps_term(spec)}, {X.oq(thrq)}, {coq_list(tr['gammas'], 'nx')}, "
+            f"{coq_list(tr['bfs'], 'nx')}, {coq_list(['(@None nx)' if t is None else f'(Some {t})' for t in tr['tfs']], '(option nx)')}, {tr['final']})")
 
 
 def translate_spec(spec, dialect, thr_p, thr_w):
@@ -114,13 +114,16 @@ def skeleton_stage(ctx: Ctx):
         ctx.cov["samples"].append({"skeleton_obligation": {"dialect": kept[0]["dialect"],
                                                             "final": kept[0]["translated"]["final"][:400]}})
     failing = [kept[i] for i in bad]
+    for f in failing:
+        f["parts_failed"] = ["(not evaluated)"]
     if failing:
-        txt = T_HEADER + "Definition cs := " + coq_list([t_term(f["spec"], f["translated"], f["thrq"]) for f in failing[:20]]) + \
+        sel = failing[:16]
+        txt = T_HEADER + "Definition cs := " + coq_list([t_term(f["spec"], f["translated"], f["thrq"]) for f in sel]) + \
             ".\nEval vm_compute in (map t_report cs).\n"
         ok, out = ctx.coqc_text("C02_trep", txt)
         flat = " ".join(out.split())
         reps = re.findall(r"\[((?:true|false)(?:; (?:true|false))*)\]", flat)
-        for f, r in zip(failing, reps):
+        for f, r in zip(sel, reps):
             f["parts_failed"] = [T_PARTS[i] for i, b in enumerate(r.split("; ")) if b == "false"]
     return failing, errs
 
@@ -141,6 +144,14 @@ def gen_case(rng, backend, boundary=False, mode="X"):
     foreign_tf = any(lv["tf_col"] and lv["tf_col"] != c["name"] for c in spec["comparisons"] for lv in c["levels"])
     return {"spec": spec, "rows": rows, "lookups": lookups, "rules": rules, "backend": backend,
             "thr_w": thr_w, "thr_p": thr_p, "waterfall": (rng.random() < 0.6) and not foreign_tf}
+
+
+def gen_exact_case(rng, backend):
+    """all parameters powers of two, prior 1/2, no TF: engine float arithmetic is exact, so rows whose
+    score EQUALS the threshold must be kept (>=) and are compared"""
+    spec = G.gen_spec(rng, "P2", boundary=False, allow_inf=False, ncmp=rng.choice([1, 2, 3]))
+    return {"spec": spec, "rows": X.gen_data(rng, rng.randint(6, 9)), "lookups": {}, "rules": ["1=1"], "backend": backend,
+            "thr_w": {"row": rng.randint(0, 50)}, "thr_p": 0.5, "waterfall": False, "exact_thr": True}
 
 
 def case_nontrivial(case, impl):
@@ -289,7 +300,7 @@ def report_x_failures(ctx, metas_live, bad, details, features_extra=None, stream
             kinds_reported |= kinds
             feats["dropped"] = sorted(kinds)
         key = json.dumps({k: v for k, v in feats.items() if k != "backend"}, sort_keys=True)
-        if key in seen or len(seen) >= 4:
+        if key in seen or len(seen) >= 3 or (not det and seen):
             continue
         seen.add(key)
         if not case.get("no_shrink"):
@@ -311,6 +322,8 @@ def report_x_failures(ctx, metas_live, bad, details, features_extra=None, stream
 def correspondence(ctx: Ctx):
     n_duck, n_lite = (34, 14) if ctx.quick else (400, 150)
     cases = [gen_case(ctx.rng, "duckdb") for _ in range(n_duck)] + [gen_case(ctx.rng, "sqlite") for _ in range(n_lite)]
+    n_exact = 6 if ctx.quick else 40
+    cases += [gen_exact_case(ctx.rng, "duckdb" if i % 3 else "sqlite") for i in range(n_exact)]
     metas, live, bad, errs, details = evaluate(ctx, "C02_x", cases)
     for case, impl, infos, err in metas:
         if impl is None:
@@ -336,6 +349,7 @@ def correspondence(ctx: Ctx):
                 if Fr(lv["u"]) == 0 and lv["kind"] not in ("null",):
                     ctx.hist("u_zero", lv["u_via"])
         ctx.hist("tf_lookup_registered", bool(case["lookups"]))
+        ctx.hist("exact_threshold_stream", bool(case.get("exact_thr")))
         ctx.hist("thr_w", "row" if isinstance(case["thr_w"], dict) else str(case["thr_w"]))
         ctx.hist("thr_p", "row" if isinstance(case["thr_p"], dict) else str(case["thr_p"]))
         for info in infos:
@@ -397,21 +411,21 @@ def boundary_stream(ctx: Ctx):
         ctx.obligation("boundary shard evaluation", False, e)
     ctx.obligation(f"boundary parameters (weight 0 / u 0 through the constructors) honoured on {len(live)} models", not bad and not errs)
     report_x_failures(ctx, live, bad, details, BOUNDARY_FEATURES, stream="boundary")
+    if errs and not bad:
+        ctx.violation("correspondence C02_xb could not be evaluated", {"broken": "C02_xb", "errors": errs[:3]}, found_input=False)
 
 
 def report_skeleton_failures(ctx: Ctx, failing, errs):
     seen = set()
-    for f in failing:
-        feats = {"skeleton": True, "parts": f.get("parts_failed", []), **G.spec_features(f["spec"])}
-        if f["boundary"] and (feats["tf_weight_zero_via_creator"] or feats["u_zero_via_creator"]):
-            feats.update(BOUNDARY_FEATURES)
+    for f in sorted(failing, key=lambda f: f["parts_failed"] == ["(not evaluated)"]):
+        feats = {"skeleton": True, "parts": f.get("parts_failed", [])}
         key = json.dumps(feats, sort_keys=True)
-        if key in seen:
+        if key in seen or len(seen) >= 3 or (seen and feats.get("parts") == ["(not evaluated)"]):
             continue
         seen.add(key)
         # a broken skeleton obligation is not yet a failing input: the X stage searches for one;
         # here we report the obligation (the X violations carry concrete inputs)
-        ctx.violation("emitted SQL differs from the model's expected skeleton: " + "; ".join(feats["parts"]),
+        ctx.violation("emitted SQL differs from the model's expected skeleton: " + "; ".join(f.get("parts_failed", [])),
                       {"broken": "skeleton obligation C02_t", "spec": f["spec"], "dialect": f["dialect"],
                        "threshold": {"prob": f["thr_p"], "weight": f["thr_w"]}, "translated": f["translated"]},
                       feats, found_input=False)
